@@ -2522,9 +2522,15 @@ fn format_unix_timestamp(unix_secs: u64) -> String {
     )
 }
 
-fn days_to_ymd(days: u64) -> (u32, u32, u32) {
-    // Simplified algorithm - works for dates from 1970 to ~2100
-    let mut remaining_days = days as i64;
+fn days_to_ymd(days: u64) -> (u64, u32, u32) {
+    // Civil-from-days in constant time. The Gregorian calendar repeats every 400 years
+    // (146_097 days), so whole cycles are split off first and only the remainder
+    // (< 400 years) is walked. The previous year-by-year loop over the full range needed
+    // time proportional to the year (hours for creation times near u64::MAX) and
+    // overflowed its u32 year counter on the way.
+    const DAYS_PER_400_YEARS: u64 = 146_097;
+    let cycles = days / DAYS_PER_400_YEARS;
+    let mut remaining_days = (days % DAYS_PER_400_YEARS) as i64;
     let mut year = 1970u32;
 
     loop {
@@ -2552,7 +2558,7 @@ fn days_to_ymd(days: u64) -> (u32, u32, u32) {
     }
 
     let day = (remaining_days + 1) as u32;
-    (year, month, day)
+    (u64::from(year) + cycles * 400, month, day)
 }
 
 fn is_leap_year(year: u32) -> bool {
